@@ -32,6 +32,14 @@ func init() {
 						{Fn: "Harness_C13_dense_forward_n3_self", Tiers: "thorough", Reach: []string{"end"}, Bounds: "all graphs on 3 nodes with self-loops (512 shapes); 1-bit facts; gen-only transfer; entry facts on nodes 0,1"},
 					},
 				},
+				{
+					PkgPath: "honnef.co/go/tools/analysis/dfa/sparse", PkgDir: "analysis/dfa/sparse", PkgName: "sparse",
+					Files: []string{"sparse_forward.go"},
+					Entries: []Entry{
+						{Fn: "Harness_C13_sparse_forward_k2", Tiers: "both", Reach: []string{"end"}, Bounds: "2 parameters with symbolic states + 2 instructions (binary operation or phi, operands/edges enumerated, cycles through phis), all rotations/reversals of the instruction order; 2-bit facts; symbolic gen/mask coefficients; symbolic pre-fixpoint"},
+						{Fn: "Harness_C13_sparse_forward_k3", Tiers: "thorough", Reach: []string{"end"}, Bounds: "as k2 with 3 instructions"},
+					},
+				},
 			},
 			Assumptions: []string{
 				"MapLattice stores no Ident values (documented invariant)",
